@@ -28,6 +28,9 @@ STATIC_TREE_CLIENTS = [
     "from vs_lib import *\n\nprint(lib_func(2), LIB_CONST, LibClass)\n",
     "from vs_all import *\nfrom vs_lib import *\n\nprint(shown(), lib_func(3))\n",
     "import vs_pkg.mod\nfrom vs_reexport import LibClass\n\nprint(vs_pkg.mod.other_func(), LibClass)\n",
+    "from vs_pkg2.shapes import area\n\nprint(area(3))\n",
+    "from vs_pkg2 import *\n\nprint(area(2), perimeter(2))\n",
+    "from vs_pkg.mod import other_func\n\nprint(other_func())\n",
 ]
 
 
